@@ -1,4 +1,4 @@
-import KoordVerif.Proofs.C01ExtGoOrder
+import KoordVerif.Proofs.C01ExtScale
 /-
 C01 — elastic-quota used/request accounting is exact over any event history.
 
@@ -44,6 +44,9 @@ Theorems (all for arbitrary states / trees / amounts / histories, no size bound)
      order), interleavings finer than a section and the Go memory model / sync.RWMutex (trusted; the extracted facts
      show each section holds its lock around all its accesses), operations under the hierarchy WRITE lock running
      concurrently with handlers (they are atomic steps at quiescent points; sampled by the mgr harness' batches).
+  T7 min-quota scaling (section "MIN-QUOTA SCALING"; Proofs/C01ExtScale.lean): `request_floor_ignores_scaled_min` — the
+     request floor of a group that does not lend is its DECLARED min whatever RefreshRuntime did to AutoScaleMin;
+     `request_floor_operand_iff`, `request_floor_scaled_counterexample` — no other operand keeps the equation.
 -/
 namespace KoordVerif.C01
 
@@ -314,6 +317,53 @@ theorem quiescent_figures_determined {A B : State} (hA : Good A) (hB : Good B) (
     (he : ∀ m j, entry A m j = entry B m j) :
     ∀ m qa qb, get? A m = some qa → get? B m = some qb → aggs qa = aggs qb :=
   figures_determined hA hB hs he
+
+/-! ### MIN-QUOTA SCALING: the request floor is the declared min, never the scaled one
+
+`XOp` (Proofs/C01ExtScale.lean) = the accounting operations plus setScaleMinQuotaEnabled, cluster-total changes
+(node add / update / delete, SetTotalResourceForTree) and RefreshRuntime, which with scaling on lowers
+CalculateInfo.AutoScaleMin below the declared min when the siblings' summed min exceeds what the parent can hand
+out.  A refresh may install ANY values (the scaling arithmetic is C02's, not modelled); the table is a component
+of `XState` that no accounting step reads.  Ties/C01.lean `tie_request_floor_operand`: the operand of the floor is
+`CalculateInfo.Min` in the delta path and the min-update path (the only writers of CalculateInfo.Request besides the
+add / clear helpers), the rebuild re-adds through the delta path and resets AutoScaleMin to Min. -/
+
+/-- Whatever scale / total / refresh operations are interleaved with an admissible history of accounting operations,
+and whatever scaled mins the refreshes install: the state is the one of the history with those operations erased (so
+no figure depends on whether a pod event came before or after a refresh, and a fresh manager fed the final objects
+agrees by `history_matches_fresh`), and every non-root group reports request = childRequest if it lends,
+max(childRequest, DECLARED min) if it does not. -/
+theorem request_floor_ignores_scaled_min (ops : List XOp) (hp : PreAllF init (ops.filterMap XOp.acct?)) :
+    (xrun xinit ops).s = run init (ops.filterMap XOp.acct?) ∧
+    ∀ m q, get? (xrun xinit ops).s m = some q → m ≠ rootName →
+      q.request = if q.lend then q.childRequest else max q.childRequest q.min :=
+  ⟨xrun_state ops xinit, request_floor_declared ops hp⟩
+
+/-- One iteration of the delta propagation with an ARBITRARY floor operand `f` (`reqNodeF`; `reqNodeF_declared`: the
+model is the instance f = declared min) re-establishes the property's request equation of a group that does not lend
+exactly when `f` raises as the declared min does. -/
+theorem request_floor_operand_iff (f : Int) (cl : Int → Int) (q : Quota) (d dnp : Int) (self : Bool) (hl : q.lend = false) :
+    (reqNodeF f cl q d dnp self).request =
+        lendRule (reqNodeF f cl q d dnp self) (reqNodeF f cl q d dnp self).childRequest ↔
+      max f (cl (q.childRequest + d)) = max q.min (cl (q.childRequest + d)) :=
+  reqNodeF_rule_iff f cl q d dnp self hl
+
+/-- …and the scaled min is NOT such an operand: declared min 40, scaled min 25, a pod of 5 arrives — the request would
+become 25 instead of 40. -/
+theorem request_floor_scaled_counterexample :
+    ¬ (∀ f : Int, (reqNodeF f clamp0 scWitness 5 0 true).request =
+        lendRule (reqNodeF f clamp0 scWitness 5 0 true) (reqNodeF f clamp0 scWitness 5 0 true).childRequest) :=
+  scaled_floor_counterexample
+
+/-- non-vacuity: the hypothesis holds for `scOps1` (scale on; a group that does not lend, min 40; total 100 -> 50; a
+refresh installs 25; a pod of 5), so the theorem applies to it; the group ends with request 40 = its declared min -/
+example : (xrun xinit scOps1).s = run init (scOps1.filterMap XOp.acct?) ∧
+    ∀ m q, get? (xrun xinit scOps1).s m = some q → m ≠ rootName →
+      q.request = if q.lend then q.childRequest else max q.childRequest q.min :=
+  request_floor_ignores_scaled_min scOps1 scOps1_pre
+
+example : ((xrun xinit scOps1).s.map fun q => (q.name, q.lend, q.min, q.request, q.childRequest)) =
+    [(2, false, 40, 40, 5), (1, false, 0, 40, 0)] ∧ (xrun xinit scOps1).scaled = [(2, 25)] := by decide
 
 /-! ### dimension-wise decomposition -/
 
